@@ -193,6 +193,7 @@ def parsePtb (lang : Lang) (s : Str) : Except Err (Tree × List Token) :=
   if !(startsWith s (lit "(ROOT ")) then .error .assertion else
   let body := (s.take (s.length - 1)).drop 6
   match ptbLoop lang (splitOn cSpace body) { stack := [], tokens := [] } with
+  | .error .assertion => .error .runtime          -- `except AssertionError: raise RuntimeError`
   | .error e => .error e
   | .ok st =>
     match st.stack with
@@ -279,7 +280,7 @@ def jaNode (line : Str) : Nat → Nat → List Token → Except Err (Tree × Nat
         | .error e => .error e
         | .ok cat =>
           let (rest, i2) := jaNext line i1 cRBrace
-          match splitOn cSlash rest with
+          match splitOn cSlash rest.dropLast with        -- `self.next('}')[:-1]`
           | [surf, base, pos1, pos2] =>
             let tok : Token := [(lit "surf", surf), (lit "base", base), (lit "pos1", pos1), (lit "pos2", pos2)]
             .ok (Tree.mkTerminal [(lit "word", surf)] cat, i2, toks ++ [tok])
